@@ -84,9 +84,11 @@ theorem bridge_total (oob : IntKind → Num → Int) (t : Target) (args : List V
   · simp [shape_recovers, shape_nil_panic_reported] at h; subst h; intro hh; cases hh
 
 /-- Totality as the ECAL program sees it — `executeFunction`, including what it does with the error
-    value OUTSIDE `Run`'s recover scope (`err.Error()`, `AddTrace`): for every kind of error value a Go
-    function can return (also one whose `Error()` panics, a typed nil pointer, a nil `*RuntimeError`) the
-    program gets a value or a catchable runtime error. -/
+    value OUTSIDE `Run`'s recover scope (`err.Error()`, `AddTrace`): for each of the six kinds of error value
+    the model distinguishes (plain, `Error()` panics / typed nil, proper runtime error, nil runtime-error
+    pointer, runtime error without `Type`) the call yields a value or a runtime error WITH a `Type`. The
+    statement ends at `executeFunction`'s return; `try_except_never_crashes` adds try/except's reading of
+    `Type`. Other consumers of the error (sink error maps) are not modelled. -/
 theorem interpreter_never_crashes (oob : IntKind → Num → Int) (kind : Val → ErrKind) (t : Target)
     (args : List Val) :
     (∃ r, executeFunction errGuarded kind (run shape oob t args) = .value r) ∨
